@@ -349,6 +349,59 @@ def lexTok (l : List SChar) : Tok := lexTokC (chars l)
 /-- `skip_blanks_and_comment` on buffer characters. -/
 def skipLen (l : List SChar) : Nat := skipLenC (chars l)
 
+/-- quote removal for the words of an `alias` command (no expansions are generated) -/
+def unquote : QMode → List Char → List Char
+  | _, [] => []
+  | .un, c :: t =>
+    if c == '\\' then
+      match t with
+      | [] => ['\\']
+      | d :: t' => if d == '\n' then unquote .un t' else d :: unquote .un t'
+    else if c == '\'' then unquote .sq t
+    else if c == '"' then unquote .dq t
+    else c :: unquote .un t
+  | .sq, c :: t => if c == '\'' then unquote .un t else c :: unquote .sq t
+  | .dq, c :: t =>
+    if c == '"' then unquote .un t
+    else if c == '\\' then
+      match t with
+      | [] => ['\\']
+      | d :: t' =>
+        if d == '\n' then unquote .dq t'
+        else if d == '$' || d == '`' || d == '"' || d == '\\' then d :: unquote .dq t'
+        else c :: d :: unquote .dq t'
+    else c :: unquote .dq t
+  | _, l => l
+
+/-! ### Here-documents: the delimiter is a redirection operand (alias substitution applies to it), the body
+    is read raw when the next newline token is consumed -/
+
+/-- pending here-documents: delimiter after quote removal, and whether the operator was `<<-` -/
+abbrev Pending := List (List Char × Bool)
+
+def stripTabs : List Char → List Char
+  | c :: t => if c == '\t' then stripTabs t else c :: t
+  | [] => []
+
+/-- `Lexer::here_doc_content` for one delimiter: number of characters up to and including the delimiter
+    line (which must end with a newline); `none` = `UnclosedHereDocContent`. -/
+def hereLen1 : Nat → List Char → Bool → List Char → Option Nat
+  | 0, _, _, _ => none
+  | f + 1, d, dash, l =>
+    let line := l.takeWhile (· != '\n')
+    match l.drop line.length with
+    | [] => none
+    | _ :: rest =>
+      if (if dash then stripTabs line else line) == d then some (line.length + 1)
+      else (hereLen1 f d dash rest).map (· + (line.length + 1))
+
+def hereLen : Pending → List Char → Option Nat
+  | [], _ => some 0
+  | (d, dash) :: ps, l =>
+    match hereLen1 (l.length + 1) d dash l with
+    | none => none
+    | some n => (hereLen ps (l.drop n)).map (· + n)
+
 /-! ### Position automaton: which `take_token_*` the parser uses next -/
 
 inductive PState
@@ -356,6 +409,7 @@ inductive PState
   | pre                  -- assignments or redirections seen, no word yet (`words.is_empty()`)
   | one                  -- exactly one word, nothing else (`is_one_word`: function definition possible)
   | args                 -- words present
+  | redirH (ret : Nat) (dash : Bool)  -- delimiter of a here-document (`<<`, `<<-`): `take_token_auto(&[])` too
   | redir (ret : Nat)    -- operand of a redirection (`take_token_auto(&[])`); 0 → pre, 1 → args, 2 → afterComp
   | afterComp            -- after `}` `fi` `done` `esac` `)`: redirections, then a separator
   | arrOpen | arr        -- `name=(` … `)`: array values are taken with `take_token_auto(&[])`
@@ -382,6 +436,8 @@ def retState : Nat → PState
 def isRedirOp (s : String) : Bool :=
   s == "<" || s == "<>" || s == ">" || s == ">>" || s == ">|" || s == "<&" || s == ">&" || s == ">>|" ||
   s == "<<<"
+
+def isHereOp (s : String) : Bool := s == "<<" || s == "<<-"
 
 /-- Separators and closers after a complete command (list.rs, and_or.rs, pipeline.rs, case.rs). -/
 def afterCommandOp (s : String) : PState :=
@@ -423,6 +479,7 @@ def transCore (st : PState) (k : Kind) : Dec :=
   | .cmd0, .io => { onTake := .pre }
   | .cmd0, .op s =>
     if isRedirOp s then { onTake := .redir 0 }
+    else if isHereOp s then { onTake := .redirH 0 (s == "<<-") }
     else if s == "(" then { onTake := .cmd0 }
     else { onTake := afterCommandOp s }
   | .cmd0, .word lit asg =>
@@ -432,23 +489,27 @@ def transCore (st : PState) (k : Kind) : Dec :=
            onTake := if asg then .pre else .one }
   -- simple command under construction
   | .pre, .io => { onTake := .pre }
-  | .pre, .op s => if isRedirOp s then { onTake := .redir 0 } else if s == "(" then {} else { onTake := afterCommandOp s }
+  | .pre, .op s => if isRedirOp s then { onTake := .redir 0 } else if isHereOp s then { onTake := .redirH 0 (s == "<<-") } else if s == "(" then {} else { onTake := afterCommandOp s }
   | .pre, .word _ asg => { sub := some true, onSub := .pre, onTake := if asg then .pre else .args }
   | .one, .io => { onTake := .args }
   | .one, .op s =>
-    if isRedirOp s then { onTake := .redir 1 } else if s == "(" then { onTake := .fnClose }
+    if isRedirOp s then { onTake := .redir 1 } else if isHereOp s then { onTake := .redirH 1 (s == "<<-") }
+    else if s == "(" then { onTake := .fnClose }
     else { onTake := afterCommandOp s }
   | .one, .word _ _ => { sub := some false, onSub := .one, onTake := .args }
   | .args, .io => { onTake := .args }
-  | .args, .op s => if isRedirOp s then { onTake := .redir 1 } else if s == "(" then {} else { onTake := afterCommandOp s }
+  | .args, .op s => if isRedirOp s then { onTake := .redir 1 } else if isHereOp s then { onTake := .redirH 1 (s == "<<-") } else if s == "(" then {} else { onTake := afterCommandOp s }
   | .args, .word _ _ => { sub := some false, onSub := .args, onTake := .args }
   -- redirection operand: take_token_auto(&[])
   | .redir r, .word _ _ => { sub := some false, onSub := .redir r, onTake := retState r }
   | .redir r, .io => { onTake := retState r }
   | .redir _, .op _ => {}
+  | .redirH r d, .word _ _ => { sub := some false, onSub := .redirH r d, onTake := retState r }
+  | .redirH r _, .io => { onTake := retState r }
+  | .redirH _ _, .op _ => {}
   -- after a compound command
   | .afterComp, .io => { onTake := .afterComp }
-  | .afterComp, .op s => if isRedirOp s then { onTake := .redir 2 } else if s == "(" then {} else { onTake := afterCommandOp s }
+  | .afterComp, .op s => if isRedirOp s then { onTake := .redir 2 } else if isHereOp s then { onTake := .redirH 2 (s == "<<-") } else if s == "(" then {} else { onTake := afterCommandOp s }
   | .afterComp, .word lit _ =>
     match lit with
     | some k =>
@@ -564,7 +625,36 @@ structure MState where
   st : PState := .cmd0
   subs : Nat := 0             -- number of substitutions performed (observation only)
   toks : List Kind := []      -- tokens consumed, most recent first (observation only)
+  hd : Pending := []          -- here-documents whose body has not been read yet
   deriving Repr
+
+/-- Does a newline taken in this state read the pending here-document bodies
+    (`newline_and_here_doc_contents`)?  Not inside array values / `for` words (`take_token_auto`). -/
+def readsBody (st : PState) : Bool := st != .arr && st != .forWords
+
+/-- Number of characters consumed AFTER the first one when the token at the head of `r` is taken in state `st`:
+    the rest of the token, plus the bodies of the pending here-documents if it is a newline. -/
+def spanLenC (hd : Pending) (st : PState) (r : List Char) : Nat :=
+  let tok := lexTokC r
+  tok.len - 1 +
+    (if tok.kind == .op "\n" && readsBody st then (hereLen hd (r.drop tok.len)).getD (r.length - tok.len) else 0)
+
+/-- tokens reported for it (a here-document without its delimiter line is a syntax error) -/
+def tokOutC (hd : Pending) (st : PState) (r : List Char) : List Kind :=
+  let tok := lexTokC r
+  if tok.kind == .op "\n" && readsBody st && (hereLen hd (r.drop tok.len)).isNone then [.bad, tok.kind]
+  else [tok.kind]
+
+/-- pending here-documents after the token was taken -/
+def hdNextC (hd : Pending) (st : PState) (r : List Char) : Pending :=
+  let tok := lexTokC r
+  match st, tok.kind with
+  | .redirH _ dash, .word _ _ => hd ++ [(unquote .un (r.take tok.len), dash)]
+  | .redirH _ dash, .io => hd ++ [(r.take tok.len, dash)]
+  | _, .op s => if s == "\n" && readsBody st then [] else hd
+  | _, _ => hd
+
+def spanLen (s : MState) (c0 : SChar) (tl : List SChar) : Nat := spanLenC s.hd s.st (chars (c0 :: tl))
 
 /-- One `require_token` + `take_token_*`: skip blanks/comment, lex a token, substitute or consume. -/
 def step (T : Table) (s : MState) : Option MState :=
@@ -574,15 +664,15 @@ def step (T : Table) (s : MState) : Option MState :=
   | [] => none
   | c0 :: tl =>
     let tok := lexTok (c0 :: tl)
-    let n := tok.len - 1
     let d := trans s.st tok.kind
     match eligible T before c0 tok.kind d.sub with
     | some a =>
-      some { pre := before, rest := spliceChars a c0 ++ tl.drop n, st := d.onSub,
-             subs := s.subs + 1, toks := s.toks }
+      some { pre := before, rest := spliceChars a c0 ++ tl.drop (tok.len - 1), st := d.onSub,
+             subs := s.subs + 1, toks := s.toks, hd := s.hd }
     | none =>
-      some { pre := (tl.take n).reverse ++ c0 :: before, rest := tl.drop n, st := d.onTake,
-             subs := s.subs, toks := tok.kind :: s.toks }
+      some { pre := (tl.take (spanLen s c0 tl)).reverse ++ c0 :: before, rest := tl.drop (spanLen s c0 tl),
+             st := d.onTake, subs := s.subs, toks := tokOutC s.hd s.st (chars (c0 :: tl)) ++ s.toks,
+             hd := hdNextC s.hd s.st (chars (c0 :: tl)) }
 
 /-- Runs `step` until the end of input; the flag is `true` iff the end was reached within the fuel. -/
 def run (T : Table) : Nat → MState → MState × Bool
@@ -632,30 +722,6 @@ structure Track where
   words : List (List Char) := []            -- its words (raw text), most recent first
   pending : List (List (List Char)) := []   -- `alias`/`unalias` commands of this line, most recent first
   deriving Repr
-
-/-- quote removal for the words of an `alias` command (no expansions are generated) -/
-def unquote : QMode → List Char → List Char
-  | _, [] => []
-  | .un, c :: t =>
-    if c == '\\' then
-      match t with
-      | [] => ['\\']
-      | d :: t' => if d == '\n' then unquote .un t' else d :: unquote .un t'
-    else if c == '\'' then unquote .sq t
-    else if c == '"' then unquote .dq t
-    else c :: unquote .un t
-  | .sq, c :: t => if c == '\'' then unquote .un t else c :: unquote .sq t
-  | .dq, c :: t =>
-    if c == '"' then unquote .un t
-    else if c == '\\' then
-      match t with
-      | [] => ['\\']
-      | d :: t' =>
-        if d == '\n' then unquote .dq t'
-        else if d == '$' || d == '`' || d == '"' || d == '\\' then d :: unquote .dq t'
-        else c :: d :: unquote .dq t'
-    else c :: unquote .dq t
-  | _, l => l
 
 /-- `alias name=value`: `AliasSet::replace` -/
 def defineAlias (T : Table) (arg : List Char) : Table :=
